@@ -53,10 +53,18 @@ def run(ctx):
     ok = (b"HTTP/1.1 101 SP\r\nUpgrade: websocket\r\nConnection: Upgrade\r\nSec-WebSocket-Accept: " +
           accept_for(base64.b64encode(bytes.fromhex(draw))) + b"\r\n\r\n").hex()
     scs = []
+    import socket as _so
+    # caller options: none, an arbitrary one, and two whose option NUMBER collides with a default option of another level
+    # (IP_TOS = TCP_NODELAY = 1, SO_DONTROUTE = TCP_KEEPINTVL = 5 on Linux): defaults are never dropped
+    useropts = [[], [(1, 2, 3)], [(_so.IPPROTO_IP, _so.IP_TOS, 0xB8)], [(_so.SOL_SOCKET, _so.SO_DONTROUTE, 1)]]
     for n in range(1, 5):
-        for pat in itertools.product(outcomes, repeat=n):
-            scs.append({"url": "ws://multi.test:8080/p", "rand": [draw], "net": [{"addrs": list(pat), "script": [["D", ok]]}],
-                        "sockopt": [(1, 2, 3)] if len(pat) % 2 else [], "timeout": 7})
+        for pi_, pat in enumerate(itertools.product(outcomes, repeat=n)):
+            sc_ = {"url": "ws://multi.test:8080/p", "rand": [draw], "net": [{"addrs": list(pat), "script": [["D", ok]]}],
+                   "sockopt": useropts[(pi_ + n) % 4], "timeout": 7}
+            if n >= 2:
+                # dual-stack answers in the resolver's order (IPv6 first, mixed): the order is the resolver's, never re-sorted
+                sc_["net"][0]["fams"] = [["6", "4", "6", "4"], ["6", "6", "4", "4"], ["4", "6", "4", "6"]][pi_ % 3][:n]
+            scs.append(sc_)
     model = ctx.model.run_parallel([connrun.scenario_line(s) for s in scs]) if ctx.model else [None] * len(scs)
     for sc, mo in zip(scs, model):
         line, info = connrun.run_impl(sc)
@@ -87,6 +95,11 @@ def run(ctx):
             if s.outcome != "A" and s.closed < 1:
                 T.fail("spec", pub, "failed sockets closed", str(s.oplog)[:200], {"site": "_open_socket", "cls": "failed-socket-not-closed"})
                 break
+        want_order = (getattr(info["net"], "resolved_addrs", [[]]) or [[]])[0][:len(tried)]
+        got_order = [next((o[1][0] for o in s.oplog if o[0] == "connect"), None) for s in tried]
+        if got_order != want_order:
+            T.fail("spec", dict(pub, fams=sc["net"][0].get("fams")), f"addresses tried in the resolver's order {want_order}", str(got_order),
+                   {"site": "_open_socket", "cls": "address-order"}, what="the addresses were not tried in the order the resolver returned them")
         if info["net"].resolved != [("multi.test", 8080)]:
             T.fail("spec", pub, "resolver asked for (multi.test, 8080)", str(info["net"].resolved), {"site": "connect", "cls": "resolver-target"})
         if mo is not None and mo != line:
